@@ -48,7 +48,7 @@ pub fn property(id: &str) -> Option<PropertyRun> {
         },
         "C05" => PropertyRun {
             id: id.into(),
-            parts: vec![Box::new(Campaign(c05::C05))],
+            parts: vec![Box::new(Campaign(c05::C05)), Box::new(Campaign(roundtrip::FolFrontEnd))],
             assumptions: vec![window_note, "the checker's Kripke evaluator for here-and-there is the trusted base".into()],
         },
         "C16" => PropertyRun {
@@ -68,7 +68,7 @@ pub fn property(id: &str) -> Option<PropertyRun> {
         },
         "C07" => PropertyRun {
             id: id.into(),
-            parts: vec![Box::new(Campaign(c07::C07))],
+            parts: vec![Box::new(Campaign(c07::C07)), Box::new(Campaign(c07::CliAgreement))],
             assumptions: vec!["exact mode: only definite verdicts over the infinite standard domain are compared; cases with an unknown verdict are counted as skipped".into(), "finite predicate extents".into()],
         },
         "C08" => PropertyRun {
@@ -82,6 +82,7 @@ pub fn property(id: &str) -> Option<PropertyRun> {
                 Box::new(Campaign(problems::C09 { known_shapes: false })),
                 Box::new(Campaign(problems::C09 { known_shapes: true })),
                 Box::new(Campaign(problems::Tptp4x)),
+                Box::new(Campaign(problems::WithOutline)),
             ],
             assumptions: vec!["the checker's strict TFF reader and type checker are the oracle (acceptance cross-checked against tests/examples/tptp4X_linux)".into()],
         },
@@ -112,7 +113,7 @@ pub fn property(id: &str) -> Option<PropertyRun> {
         },
         "C15" => PropertyRun {
             id: id.into(),
-            parts: vec![Box::new(Campaign(roundtrip::C15)), Box::new(Campaign(roundtrip::C15Outputs)), Box::new(Campaign(roundtrip::C15TheoryOutputs)), Box::new(FuzzPart { target: "roundtrip_fol", runs_thorough: 150_000 })],
+            parts: vec![Box::new(Campaign(roundtrip::C15)), Box::new(Campaign(roundtrip::C15Outputs)), Box::new(Campaign(roundtrip::C15TheoryOutputs)), Box::new(Campaign(roundtrip::FolFrontEnd)), Box::new(FuzzPart { target: "roundtrip_fol", runs_thorough: 150_000 })],
             assumptions: vec!["input text comes from the checker's own printer; trees outside the image of the parser are never required to round-trip".into()],
         },
         "C18" => PropertyRun {
